@@ -22,7 +22,7 @@ func c07NumCases(env *core.Env) int {
 	if env.Thorough() {
 		return 125000 // x16 inputs
 	}
-	return 4000
+	return 16000
 }
 
 // decodeTotal decodes text into the target and checks totality and the fixed-point law.
